@@ -108,8 +108,10 @@ impl Monitor for C12 {
                     0 => (gen_aggregate(rng, &t.schema, &AggCfg::default()), None),
                     1 => {
                         let mut s = gen_select(rng, &t.schema, &StmtCfg { expr: ExprCfg { ill_typed: 0, ..Default::default() }, ..Default::default() });
-                        let un = 1 + rng.below(8);
-                        let ulines = std_lines(rng, &t, un, &dc);
+                        // (the joined file may hold no row at all: empty, or nothing but foreign lines)
+                        let un = rng.below(9);
+                        let mut ulines = std_lines(rng, &t, un, &dc);
+                        if un == 0 && rng.chance(1, 2) { ulines = vec!["garbage".into(), "".into(), "{}".into()]; }
                         s.join = Some(Join { outer: rng.chance(1, 2), table: "u".into(), file: "@JOINED@".into(), left: ("t".into(), "k".into()), right: ("u".into(), "k".into()) });
                         (s, Some(ulines))
                     }
@@ -204,6 +206,8 @@ impl Monitor for C12 {
                 if !same_err { vs.push(Violation::new(format!("concat|{}|error-differs", feat), format!("split: {:?} whole: {:?}", a.result.as_ref().err().map(|e| e.show()), b.result.as_ref().err().map(|e| e.show())))); }
                 else if a.printed != b.printed { vs.push(Violation::new(format!("concat|{}|records-differ", feat), format!("{} parts; split run printed {} records, whole run {}: {:?} vs {:?}", parts.len(), a.printed.len(), b.printed.len(), a.printed.iter().take(3).collect::<Vec<_>>(), b.printed.iter().take(3).collect::<Vec<_>>()))); }
                 if a.result.is_ok() && b.result.is_ok() && a.total_lines != b.total_lines { vs.push(Violation::new(format!("concat|{}|total_lines", feat), format!("split {} whole {}", a.total_lines, b.total_lines))); }
+                // without LIMIT every line of every file is read, whatever the statement and the joined file are
+                if !sql.contains(" LIMIT ") { for (what, r) in [("split", &a), ("whole", &b)] { if r.result.is_ok() && r.total_lines != lines.len() as u64 { vs.push(Violation::new(format!("concat|{}|lines-not-read", feat), format!("{} run: total_lines {} of {} lines ({:?})", what, r.total_lines, lines.len(), sql))); break; } } }
                 if vs.is_empty() { Verdict::Held } else { Verdict::Violated(vs) }
             }
             "badutf8" => {
